@@ -296,3 +296,16 @@ CONFIG["C20"] = dict(
     level_note="translation validation, not proof: -D__BLST_NO_ASM__ is not part of the claim (does not compile at the pinned commit)",
     assumptions=["the transcript is representative of the deterministic operations of the module"],
 )
+
+CONFIG["C19"] = dict(
+    lean_modules=["Props.C19"], generators=["C19"], level="proof", race=True,
+    rule="operation mixes under the Go race detector, 2/4/8 goroutines (thorough up to 64): KMAC128 ComputeHash on one shared hasher; BLS Sign, Verify (valid and invalid), BLSVerifyPOP, SPOCKVerify, "
+         "SPOCKVerifyAgainstData, VerifyBLSSignatureOneMessage/ManyMessages, BatchVerify over shared keys, signatures and one KMAC hasher; ECDSA Sign/Verify on both curves sharing keys with per-goroutine hashers; "
+         "every result compared with the same call made alone, every argument with a snapshot",
+    trusted_base=COMMON_TB + ["the Go memory model; the C side's accesses beyond the const qualifiers of its prototypes"],
+    technique="Lean 4 proof (footprint disjointness => race freedom and unchanged results) over write footprints, shared-root calls and cgo argument provenance/const-ness regenerated from the source + race-detector runs",
+    level_text="Theorems: operations without shared writes are pairwise conflict-free and return what they return alone; tie decided on the regenerated tables: every listed operation has no write through receiver/parameters/package variables, calls only read-only methods on shared objects, passes shared objects to C through pointers to const; KMAC ComputeHash/SumHash only Clone the shared state. "
+               "Footprints of callees are direct, not transitive (partial); the race detector covers executions.",
+    level_note="partial: Go memory model and C accesses assumed",
+    assumptions=["hashers other than KMAC128 are not shared between goroutines (as the property states)"],
+)
